@@ -161,6 +161,76 @@ def replay_notes(me, rows, rep, ev):
     ev.sample({"model": "MC_C05_notes", "row": rows[len(rows) // 2]})
 
 
+# --------------------------------------------------------------------------- algorithm traces (code -> MC_C05_algo)
+class PhaseTracer:
+    """Observes the Hopcroft-Karp loop of util._bipartite_match WITHOUT touching it: sys.monitoring PY_START on the code
+    object of its nested function `recurse`; whenever `recurse` is entered from _bipartite_match itself (not recursively)
+    the enclosing frame's `matching` is snapshotted.  The snapshots are the states of the machine of MC_C05_algo
+    (Greedy, then Phase steps); if a refactoring removes `recurse` there are simply no snapshots."""
+    TOOL = 0
+
+    def __init__(self, me):
+        self.parent = me.util._bipartite_match.__code__
+        self.child = next((c for c in self.parent.co_consts if hasattr(c, "co_name") and c.co_name == "recurse"), None)
+        self.runs = []          # one list of snapshots per _bipartite_match call
+        self.cur = None
+
+    def _start(self, code, off):
+        if code is self.parent:
+            self.cur = []
+            self.runs.append(self.cur)
+        elif code is self.child and self.cur is not None:
+            fr_ = sys._getframe(1).f_back
+            if fr_ is not None and fr_.f_code is self.parent:
+                m = fr_.f_locals.get("matching")
+                if isinstance(m, dict):
+                    self.cur.append(sorted((int(u), int(v)) for v, u in m.items()))
+
+    def __enter__(self):
+        mon = sys.monitoring
+        if mon.get_tool(self.TOOL) is not None:
+            mon.free_tool_id(self.TOOL)
+        mon.use_tool_id(self.TOOL, "mir_eval_verif_phases")
+        mon.register_callback(self.TOOL, mon.events.PY_START, self._start)
+        mon.set_local_events(self.TOOL, self.parent, mon.events.PY_START)
+        if self.child is not None:
+            mon.set_local_events(self.TOOL, self.child, mon.events.PY_START)
+        return self
+
+    def __exit__(self, *a):
+        mon = sys.monitoring
+        mon.set_local_events(self.TOOL, self.parent, 0)
+        if self.child is not None:
+            mon.set_local_events(self.TOOL, self.child, 0)
+        mon.free_tool_id(self.TOOL)
+        return False
+
+
+def algo_events(me, rng, n, maxn):
+    """random bipartite graphs (adjacency orders shuffled) run through _bipartite_match with the phase tracer"""
+    out = []
+    with PhaseTracer(me) as tr:
+        graphs = []
+        for _ in range(n):
+            nl, nr = rng.randint(1, maxn), rng.randint(1, maxn)
+            p = rng.choice([0.15, 0.3, 0.5])
+            g = {}
+            for u in range(1, nl + 1):
+                vs = [v for v in range(1, nr + 1) if rng.random() < p]
+                rng.shuffle(vs)
+                if vs:
+                    g[u] = vs
+            items = list(g.items()); rng.shuffle(items)
+            g = dict(items)
+            graphs.append((nl, nr, g))
+            res = me.util._bipartite_match({u: list(vs) for u, vs in g.items()})
+            graphs[-1] += (sorted((int(u), int(v)) for v, u in res.items()),)
+        for (nl, nr, g, final), snaps in zip(graphs, tr.runs):
+            out.append({"kind": "algo", "nl": nl, "nr": nr, "e": sorted([u, v] for u, vs in g.items() for v in vs),
+                        "snaps": [[list(p) for p in s_] for s_ in snaps], "m": [list(p) for p in final], "count": len(final)})
+    return out
+
+
 # --------------------------------------------------------------------------- traces (code -> spec)
 def lattice(x, unit):
     k = np.asarray(x, dtype=float) / unit
@@ -315,13 +385,21 @@ def run(tier, seed):
 
     # 5. recorded behaviours of the real code, certified by TLC
     events = record_traces(me, rng, 1500 if thorough else 250, 14 if thorough else 9)
+    algo = algo_events(me, rng, 3000 if thorough else 600, 10 if thorough else 7)
+    for a_ in algo:
+        a_["tid"] = len(events) + 1
+        events.append(a_)
+    ev.cov["algorithm_runs_traced"] = len(algo)
+    ev.cov["algorithm_runs_with_phase_snapshots"] = sum(1 for a_ in algo if a_["snaps"])
+    for e_ in events:
+        e_.setdefault("snaps", [])
     rejects, st = trace.validate("Trace_C05", events)
     ev.tlc("Trace_C05", st, "recorded matchings certified (feasible, one-to-one, no augmenting path)")
     ev.cov["traces_validated_against_impl"] = len(events)
     byid = {e["tid"]: e for e in events}
     for rj in rejects:
         e = byid[rj["tid"]]
-        fn = {"graph": "util._bipartite_match", "events": "util.match_events", "chroma": "util.match_events[chroma]",
+        fn = {"graph": "util._bipartite_match", "algo": "util._bipartite_match", "events": "util.match_events", "chroma": "util.match_events[chroma]",
               "notes": "transcription.match_notes", "onsets": "transcription.match_note_onsets",
               "offsets": "transcription.match_note_offsets"}[e["kind"]]
         rep.violation(fn, rj["clause"], {"trace_event": e})
